@@ -1,4 +1,5 @@
 """C04 - a trashed entry is never overwritten: names stay unique, also under concurrency."""
+import copy
 import itertools
 
 import engine
@@ -150,6 +151,24 @@ def run(run, thorough):
     for s, res in out:
         fake = {'before': res['before'], 'after': res['steps'][-1]['after'], 'steps': res['steps']}
         judge(run, s, fake, victims, 'empty', 'sequential-%d' % n, 'sequential-state')
+    # --- another trash-put runs to completion INSIDE this one, right after its k-th library operation (every k, probes included), while
+    # the home trash directory does not exist yet: both create it, both entries are whole afterwards
+    td = '/home/u/.local/share/Trash'
+    scn0 = {'tree': [['d', '/home/u', 0o755], ['d', '/s', 0o755], ['f', '/s/mine', 'mine']], 'mounts': [], 'cwd': '/', 'uid': 0,
+            'env': {'HOME': '/home/u', 'TRASH_VOLUMES': '/'}, 'steps': [{'cmd': 'put', 'argv': ['--', '/s/mine'], 'now': [2024, 1, 1, 0, 0, 0, 0]}]}
+    base = sandbox.execute(scn0)
+    if base.get('steps'):
+        nlib = len([t for t in base['steps'][0]['trace'] if len(t) > 3 and t[3]])
+        other_info = scen.TI % ('/s/other', '2024-01-01T00:00:00')
+        inside = []
+        for k in range(1, nlib + 1):
+            s2 = copy.deepcopy(scn0)
+            s2['steps'][0]['plan'] = {'midlib': {'after': k, 'ops': [['mkdir', td + '/info'], ['mkdir', td + '/files'],
+                                                                    ['write', td + '/info/other.trashinfo', other_info], ['write', td + '/files/other', 'theirs']]}}
+            inside.append(s2)
+        for s2, r in zip(inside, sandbox.execute_many(inside) if inside else []):
+            if r.get('steps'):
+                judge_inside(run, s2, r)
     # --- names too long for their .trashinfo: the info name is truncated, and so is the payload name that must be probed
     longs = []
     for ln, pre in ((250, 'orphan_f'), (250, 'pair'), (246, 'orphan_d'), (255, 'orphan_f'), (245, 'orphan_f')):
@@ -207,10 +226,29 @@ def run(run, thorough):
     run.sample({'level': 'schedule', 'processes': 2, 'schedule': 'B-inside-A@5', 'pre_state': 'orphan_d', 'kinds': ['f', 'd']})
 
 
+def judge_inside(run, s2, r, section='put-inside-put'):
+    td = '/home/u/.local/share/Trash'
+    run.count(section)
+    o, snap = r['steps'][0], r['steps'][0]['after']
+    ents = engine.entries_of(snap, td)
+    oth = ents.get('other')
+    case = {'scenario': s2, 'schedule': 'put-inside-put', 'exit': o['exit'], 'stderr': o['stderr'][-300:]}
+    if oth is None or oth['payload'] is None or oth['info'] is None or not engine.info_parseable(oth['info']):
+        run.fail('oracle', 'the entry another trash-put completed meanwhile was damaged or lost', case, key='concurrent-entry-lost', section=section)
+    mine = [n for n, e in ents.items() if n != 'other']
+    if o['exit'] == 0 and not any(ents[n]['payload'] is not None and ents[n]['info'] is not None for n in mine):
+        run.fail('oracle', 'trash-put exited 0 without a complete entry of its own', case, key='success-without-entry', section=section)
+
+
 def replay(run, payload):
     case = payload.get('case') or {}
     scn = case.get('scenario')
     if not scn:
+        return
+    if case.get('schedule') == 'put-inside-put':
+        r = sandbox.execute(scn)
+        if r.get('steps'):
+            judge_inside(run, scn, r, 'replay')
         return
     steps = scn.get('steps') or []
     sched = case.get('schedule')
